@@ -22,6 +22,10 @@ type C12Plan struct {
 	Delete  []int    `json:"delete"`  // indices into Refs deleted before pruning
 	ViaCLI  bool     `json:"via_cli"`
 	Faults  []*Fault `json:"faults,omitempty"` // store-op errors injected into the first prune
+	// Lost: a damaged repository: that many blocks / block indices (the greatest keys first when LostTop) are
+	// absent from the store although tables list them
+	Lost    int  `json:"lost,omitempty"`
+	LostTop bool `json:"lost_top,omitempty"`
 }
 
 type C12Ref struct {
@@ -48,6 +52,9 @@ func init() {
 				if r.Chance(0.35) {
 					p.Delete = append(p.Delete, i)
 				}
+			}
+			if r.Chance(0.12) {
+				p.Lost, p.LostTop = r.Range(1, 3), r.Chance(0.6)
 			}
 			if r.Chance(0.3) {
 				for k := r.Range(1, 2); k > 0; k-- {
@@ -111,6 +118,24 @@ func execC12(t *testing.T, raw json.RawMessage, res *Result) {
 		st.RawDelete("tbl/" + ts)
 		st.RawDelete("tblidx/" + ts)
 		st.RawDelete("tblsum/" + ts)
+	}
+	if p.Lost < 0 || p.Lost > 20 {
+		res.Invalid("lost")
+		return
+	}
+	if p.Lost > 0 {
+		for _, pfx := range []string{"blk/", "blkidx/"} {
+			ks := sortStrings(st.Keys(pfx))
+			for k := 0; k < p.Lost && len(ks) > 0; k++ {
+				i := len(ks) - 1
+				if !p.LostTop {
+					i = (k*7 + p.Lost) % len(ks)
+				}
+				st.RawDelete(ks[i])
+				ks = append(ks[:i], ks[i+1:]...)
+			}
+		}
+		res.probe("damaged_repository_lost_blocks", 1)
 	}
 	// blocks only referenced by removed (shallow) tables stay as garbage: prune may or may not take them
 	db, err := OpenRefDB(refPath)
@@ -290,13 +315,18 @@ func execC12(t *testing.T, raw json.RawMessage, res *Result) {
 			}
 		}
 		_ = tv
-		tb, _, err := ReadTableRaw(mapReader(before), []byte(ts))
-		if err != nil {
-			continue // blocks already missing before
+		tb, _, _ := ReadTableRaw(mapReader(before), []byte(ts))
+		if tb == nil {
+			continue // table object unreadable before
 		}
+		// (an error only means that some listed block was absent before: the others still count)
 		for i, b := range tb.Blocks {
 			keepBlocks[string(b)] = true
-			for _, key := range []string{"blk/" + string(b), "blkidx/" + string(tb.BlockIndices[i])} {
+			keys := []string{"blk/" + string(b)}
+			if i < len(tb.BlockIndices) {
+				keys = append(keys, "blkidx/"+string(tb.BlockIndices[i]))
+			}
+			for _, key := range keys {
 				if bv, ok := before[key]; ok {
 					if av, ok := after[key]; !ok || !bytes.Equal(av, bv) {
 						res.Violate("reachable-block-removed", "%s of a reachable table %x was removed by prune", FmtKey(key), ts)
